@@ -36,7 +36,7 @@ def run(ctx):
     for dp in decs:
         ctx.analysed['bodies'].add(dp)
         B = hirq.Body(f, f.hir[dp])
-        outs = absx.Interp(f, B).run()
+        outs = absx.Interp(f, B, combinators=True).run()
         succ = []
         for o in outs:
             if o.kind in ('val', 'ret'):
